@@ -69,6 +69,10 @@ type (
 		init1, init2       sync.Once
 		init1err, init2err error
 
+		// lazyMu guards the singletons that are created on first use by request
+		// goroutines: mapper, readOnlyMapper, ce and ee.
+		lazyMu sync.Mutex
+
 		healthH        *healthx.Handler
 		healthServer   *health.Server
 		handlers       []Handler
@@ -102,6 +106,8 @@ type (
 )
 
 func (r *RegistryDefault) Mapper() *relationtuple.Mapper {
+	r.lazyMu.Lock()
+	defer r.lazyMu.Unlock()
 	if r.mapper == nil {
 		r.mapper = &relationtuple.Mapper{D: r}
 	}
@@ -109,6 +115,8 @@ func (r *RegistryDefault) Mapper() *relationtuple.Mapper {
 }
 
 func (r *RegistryDefault) ReadOnlyMapper() *relationtuple.Mapper {
+	r.lazyMu.Lock()
+	defer r.lazyMu.Unlock()
 	if r.readOnlyMapper == nil {
 		r.readOnlyMapper = &relationtuple.Mapper{D: r, ReadOnly: true}
 	}
@@ -253,6 +261,8 @@ func (r *RegistryDefault) Traverser() relationtuple.Traverser {
 }
 
 func (r *RegistryDefault) PermissionEngine() *check.Engine {
+	r.lazyMu.Lock()
+	defer r.lazyMu.Unlock()
 	if r.ce == nil {
 		r.ce = check.NewEngine(r)
 	}
@@ -260,6 +270,8 @@ func (r *RegistryDefault) PermissionEngine() *check.Engine {
 }
 
 func (r *RegistryDefault) ExpandEngine() *expand.Engine {
+	r.lazyMu.Lock()
+	defer r.lazyMu.Unlock()
 	if r.ee == nil {
 		r.ee = expand.NewEngine(r)
 	}
